@@ -27,6 +27,7 @@ import (
 	"verif.local/vlib"
 
 	"hop.computer/hop/authgrants"
+	"hop.computer/hop/certs"
 )
 
 // ---------------------------------------------------------------------------
@@ -172,11 +173,11 @@ func (g c07Grant) kindMatches(text string, shell bool) bool {
 func (g c07Grant) inTime(now int64) bool { return g.Start <= now && now < g.Exp }
 
 type c07Session struct {
-	user  string
-	key   int
-	real  *hopSession
-	live  []c07Grant // grants moved into the session and not yet used
-	used  []c07Grant // grants consumed by an allowed request
+	user string
+	key  int
+	real *hopSession
+	live []c07Grant // grants moved into the session and not yet used
+	used []c07Grant // grants consumed by an allowed request
 }
 
 // c07Why explains why the model has no grant for the request (label and
@@ -622,5 +623,129 @@ func c07SelfTest(t *testing.T) {
 
 func TestVerifC07Grants(t *testing.T) {
 	c07SelfTest(t)
-	vlib.Drive(t, vlib.Spec[c07Case]{ID: "C07", Quick: 40000, Gen: c07Gen, Run: c07Guarded})
+	vlib.Drive(t, vlib.Spec[c07Case]{ID: "C07", Quick: 100000, Gen: c07Gen, Run: c07Guarded})
+}
+
+// ---------------------------------------------------------------------------
+// Grant issuing from a grant-admitted session.
+//
+// The other action kind that has a gate function in hopserver: an AuthGrant tube
+// is served by handleAgc -> authgrants.StartTargetInstance(tube, cert,
+// sess.checkIntent, server.AddAuthGrant); per intent communication the target
+// runs checkIntent and, if that returns nil, AddAuthGrant, then confirms
+// (authgrants/target.go handleIntentCommunication). That two-call sequence is
+// re-stated here on a session admitted through exactly one stored grant.
+// No grant type authorizes issuing grants, so in such a session the statement
+// requires every intent to be refused. The space is small and enumerated
+// completely. (Port forwarding has no gate function at all: startPF / handlePF
+// go straight to the portforwarding package - layer 2.)
+
+type c07iCase struct {
+	HeldType  int  `json:"held"`      // type of the one grant the session was admitted with
+	HeldValid bool `json:"heldvalid"` // that grant is inside its validity interval
+	WantType  int  `json:"want"`      // grant type asked for by the intent
+	OtherUser bool `json:"otheruser"` // intent names bob, the session is alice's
+	OtherKey  bool `json:"otherkey"`  // intent names delegate key K2, the session's key is K1
+	Expired   bool `json:"expired"`   // intent expiry in 1990 instead of 2100 (checkIntent reads the wall clock)
+	BadCert   bool `json:"badcert"`   // delegate certificate is not a leaf
+}
+
+func c07iRun(c c07iCase, v *vlib.Verdict) {
+	restore := verifAuthzInstallThunks(func() time.Time { return verifAuthzT0 })
+	defer restore()
+	z := verifAuthzNewServer(true)
+	exp := 60
+	if !c.HeldValid {
+		exp = -1
+	}
+	if err := z.S.AddAuthGrant(verifAuthzIntent("alice", 0, authgrants.GrantType(c.HeldType), "ls", verifAuthzAt(-60), verifAuthzAt(exp))); err != nil {
+		v.Inconclusive = "AddAuthGrant failed with authgrants enabled: " + err.Error()
+		return
+	}
+	granted, viaGrant, actions := verifAuthzLogin(z.S, "alice", verifAuthzKey(0))
+	if !granted || !viaGrant {
+		v.Failf("C07:live-grant-refused", "connect (alice,K1) with one stored grant: granted=%v viaGrant=%v", granted, viaGrant)
+		return
+	}
+	sess := verifAuthzSession(z.S, "alice", viaGrant, actions)
+
+	user, key := "alice", 0
+	if c.OtherUser {
+		user = "bob"
+	}
+	if c.OtherKey {
+		key = 1
+	}
+	in := verifAuthzIntent(user, key, authgrants.GrantType(c.WantType), "cat /etc/shadow", time.Date(1989, 1, 1, 0, 0, 0, 0, time.UTC), time.Date(2100, 1, 1, 0, 0, 0, 0, time.UTC))
+	if c.Expired {
+		in.ExpTime = time.Date(1990, 1, 1, 0, 0, 0, 0, time.UTC)
+	}
+	if c.BadCert {
+		in.DelegateCert.Type = certs.Intermediate
+	}
+	clientLeaf := verifAuthzLeaf(0)
+	// handleIntentCommunication: checkIntent, then addAuthGrant, then confirmation
+	err := sess.checkIntent(*in, &clientLeaf)
+	if err == nil {
+		err = z.S.AddAuthGrant(in)
+	}
+	confirmed := err == nil
+
+	v.NonTrivial = true // every case is a request that must be refused
+	plain := !c.OtherUser && !c.Expired && !c.BadCert && c.WantType >= 1 && c.WantType <= 4
+	switch {
+	case confirmed:
+		v.Label("issue:confirmed")
+	case plain:
+		v.Label("issue:refused:acceptable-intent")
+	default:
+		v.Label("issue:refused:unacceptable-intent")
+	}
+	if confirmed {
+		minted, _ := z.S.AuthorizeKeyAuthGrant(user, verifAuthzKey(key))
+		v.Failf("C07:allowed-without-matching-grant:grant-issuing",
+			"session (alice,K1) admitted through one grant of type %d (valid=%v) sent an intent (type %d, user %s, delegate K%d) over its own AuthGrant tube: checkIntent and AddAuthGrant returned nil, the server now stores %d new grant(s) for (%s,K%d); no grant of the session authorizes issuing grants",
+			c.HeldType, c.HeldValid, c.WantType, user, key+1, len(minted), user, key+1)
+		return
+	}
+	// refused: nothing may have been stored
+	if minted, err := z.S.AuthorizeKeyAuthGrant(user, verifAuthzKey(key)); err == nil {
+		v.Failf("C07:refused-intent-stored", "refused intent left %d grant(s) for (%s,K%d) in the server map", len(minted), user, key+1)
+	}
+}
+
+func c07iGuarded(c c07iCase, v *vlib.Verdict) { vlib.Guard(v, func() { c07iRun(c, v) }) }
+
+func TestVerifC07Issue(t *testing.T) {
+	if vlib.ReplayEnumerated(t, "C07", c07iGuarded) {
+		return
+	}
+	rec := vlib.Open(t, "C07")
+	types := []int{1, 2, 3, 4, 5, 9}
+	bools := []bool{false, true}
+	idx := 0
+	for _, held := range types {
+		for _, hv := range bools {
+			for _, want := range types {
+				for _, ou := range bools {
+					for _, ok := range bools {
+						for _, ex := range bools {
+							for _, bc := range bools {
+								idx++
+								if !rec.Mine(idx) {
+									continue
+								}
+								c := c07iCase{HeldType: held, HeldValid: hv, WantType: want, OtherUser: ou, OtherKey: ok, Expired: ex, BadCert: bc}
+								if !vlib.Each(t, rec, c, c07iGuarded) {
+									return
+								}
+							}
+						}
+					}
+				}
+			}
+		}
+	}
+	rec.SetExhaustive(true)
+	rec.Extra("enumerated", fmt.Sprintf("all %d combinations of held grant type x validity x requested type x other user x other key x expired x bad certificate", idx))
 }
